@@ -1,0 +1,24 @@
+//go:build verif
+
+package rtmp
+
+import "github.com/q191201771/lal/pkg/base"
+
+// Hooks for the external verification harness. Compiled only with `-tags verif`.
+
+// VerifMessage2Chunks exposes message2Chunks with an explicit chunk size and previous header.
+func VerifMessage2Chunks(message []byte, header *base.RtmpHeader, prevHeader *base.RtmpHeader, chunkSize int) []byte {
+	return message2Chunks(message, header, prevHeader, chunkSize)
+}
+
+// VerifMsg returns the completed message held by the stream (valid only inside the composer callback).
+func (stream *Stream) VerifMsg() base.RtmpMsg {
+	return stream.toAvMsg()
+}
+
+// VerifSetWriteChanSize sets the write queue size of server sessions and returns the previous value.
+func VerifSetWriteChanSize(n int) int {
+	prev := wChanSize
+	wChanSize = n
+	return prev
+}
